@@ -6,7 +6,7 @@ use std::collections::BTreeMap;
 use vcommon::{Args, Reporter, Rng, hash_of, json};
 
 use crate::emit::Manifest;
-use crate::g22::{Group22, Variant22};
+use crate::g22::{Group22, Variant22, base_kind};
 use crate::rt::{Ev, History, It, Rec, Registry, SIZE_PANIC};
 
 pub type Trace = BTreeMap<(u16, u32), Vec<It>>;
@@ -50,33 +50,103 @@ fn flips_between(g: &Group22, a: &Variant22, b: &Variant22) -> Vec<(String, Stri
     v
 }
 
-fn base_kind(kind: &str) -> String {
-    kind.split('\'').next().unwrap().to_string()
+fn same_items(ordered: bool, x: &[It], y: &[It]) -> bool {
+    if ordered {
+        x == y
+    } else {
+        let (mut xs, mut ys) = (x.to_vec(), y.to_vec());
+        xs.sort();
+        ys.sort();
+        xs == ys
+    }
 }
 
-/// First difference between two traces, honouring the order only where it is documented.
-fn first_diff(g: &Group22, a: &Trace, b: &Trace) -> Option<(u16, u32, Vec<It>, Vec<It>)> {
+/// Shape of a difference between the reference items `x` and the variant's items `y`.
+fn diff_shape(x: &[It], y: &[It]) -> &'static str {
+    let (mut xs, mut ys) = (x.to_vec(), y.to_vec());
+    xs.sort();
+    ys.sort();
+    if xs == ys {
+        return "order";
+    }
+    let sub = |a: &[It], b: &[It]| -> bool {
+        // a is a sub-multiset of b (both sorted)
+        let mut j = 0;
+        for v in a {
+            while j < b.len() && b[j] < *v {
+                j += 1;
+            }
+            if j >= b.len() || b[j] != *v {
+                return false;
+            }
+            j += 1;
+        }
+        true
+    };
+    if sub(&ys, &xs) {
+        "items-missing"
+    } else if sub(&xs, &ys) {
+        "items-extra"
+    } else {
+        "items-differ"
+    }
+}
+
+pub struct Diff {
+    pub site: u16,
+    pub tick: u32,
+    pub ref_items: Vec<It>,
+    pub var_items: Vec<It>,
+    /// kind of the operator the difference is attributed to
+    pub culprit: String,
+    pub culprit_name: String,
+}
+
+/// First difference between two traces (order honoured only where it is documented), attributed to the operator
+/// whose output differs first: among the observation points that differ in the earliest differing tick, one
+/// whose upstream observation points all agree in that tick.
+fn first_diff(g: &Group22, flips: &[(String, String)], a: &Trace, b: &Trace) -> Option<Diff> {
     let mut keys: Vec<(u16, u32)> = a.keys().chain(b.keys()).copied().collect();
     keys.sort();
     keys.dedup();
     let empty = Vec::new();
+    let mut differing: Vec<(u32, u16)> = Vec::new();
     for k in keys {
         let x = a.get(&k).unwrap_or(&empty);
         let y = b.get(&k).unwrap_or(&empty);
         let ordered = g.sinks.iter().find(|s| s.site == k.0).map(|s| s.ordered).unwrap_or(false);
-        let same = if ordered {
-            x == y
-        } else {
-            let (mut xs, mut ys) = (x.clone(), y.clone());
-            xs.sort();
-            ys.sort();
-            xs == ys
-        };
-        if !same {
-            return Some((k.0, k.1, x.clone(), y.clone()));
+        if !same_items(ordered, x, y) {
+            differing.push((k.1, k.0));
         }
     }
-    None
+    differing.sort();
+    let &(tick, _) = differing.first()?;
+    let now: Vec<u16> = differing.iter().filter(|d| d.0 == tick).map(|d| d.1).collect();
+    let root = now
+        .iter()
+        .copied()
+        .find(|s| g.sinks.iter().find(|k| k.site == *s).map(|k| k.preds.iter().all(|p| !now.contains(p))).unwrap_or(true))
+        .unwrap_or(now[0]);
+    let sink = g.sinks.iter().find(|k| k.site == root);
+    let (mut culprit, mut culprit_name) = ("unknown".to_string(), String::new());
+    if let Some(k) = sink {
+        let flipped = |n: &str| flips.iter().any(|f| f.0 == n);
+        if let Some((n, kind)) = k.between.iter().find(|(n, _)| flipped(n)) {
+            culprit = kind.clone();
+            culprit_name = n.clone();
+        } else if let Some((n, kind)) = k.between.first() {
+            culprit = format!("{}:same-colour", kind);
+            culprit_name = n.clone();
+        }
+    }
+    Some(Diff {
+        site: root,
+        tick,
+        ref_items: a.get(&(root, tick)).cloned().unwrap_or_default(),
+        var_items: b.get(&(root, tick)).cloned().unwrap_or_default(),
+        culprit,
+        culprit_name,
+    })
 }
 
 fn err_class(e: &str) -> String {
@@ -98,6 +168,32 @@ fn err_class(e: &str) -> String {
         }
     }
     "other".to_string()
+}
+
+/// The operator a rustc error points at: the rendered message quotes the offending statement `name = … -> op(…)`.
+fn err_operator(g: &Group22, v: &Variant22, msg: &str) -> String {
+    for line in msg.lines() {
+        let Some(bar) = line.find('|') else { continue };
+        let code = line[bar + 1..].trim();
+        let Some(eq) = code.find(" = ") else { continue };
+        let name = code[..eq].trim();
+        if name.is_empty() || !name.chars().all(|c| c.is_ascii_alphanumeric() || c == '_') {
+            continue;
+        }
+        if let Some(k) = g.kinds.get(name) {
+            return base_kind(k);
+        }
+        // an inserted node: take the operator name from the variant's text
+        for st in v.text.lines() {
+            let st = st.trim();
+            if let Some(rest) = st.strip_prefix(&format!("{name} = ")) {
+                let op = rest.rsplit("-> ").next().unwrap_or(rest);
+                let op: String = op.chars().take_while(|c| c.is_ascii_alphanumeric() || *c == '_').collect();
+                return format!("inserted-{op}");
+            }
+        }
+    }
+    "unknown-operator".to_string()
 }
 
 fn history_for(seed: u64, gid: usize, i: usize, n_src: usize) -> History {
@@ -123,16 +219,6 @@ fn judge_pair(rep: &mut Reporter, m: &Manifest, reg: &Registry, g: &Group22, r: 
     rep.eval();
     let flips = flips_between(g, r, v);
     let sg_changed = r.analysis.n_subgraphs != v.analysis.n_subgraphs;
-    let nearest = |site: u16| -> String {
-        if let Some(s) = g.sinks.iter().find(|s| s.site == site) {
-            for (name, kind, _) in &s.upstream {
-                if flips.iter().any(|f| &f.0 == name) {
-                    return kind.clone();
-                }
-            }
-        }
-        if sg_changed { "subgraph-shape".into() } else { "same-colours".into() }
-    };
     match (ref_res, &res) {
         (RunRes::TooBig, _) | (_, RunRes::TooBig) => {
             rep.count("history_skipped_trace_too_big");
@@ -144,16 +230,21 @@ fn judge_pair(rep: &mut Reporter, m: &Manifest, reg: &Registry, g: &Group22, r: 
                 rep.nontrivial(hash_of(&(g.gid, v.vid, h)));
                 rep.sample(|| json!({"group": g.gid, "variant": v.vid, "inserts": v.inserts, "flipped": flips, "subgraphs": [r.analysis.n_subgraphs, v.analysis.n_subgraphs], "ticks": h.n_ticks(), "items": h.total_items()}));
             }
-            if let Some((site, tick, x, y)) = first_diff(g, a, b) {
-                let k = nearest(site);
-                let ordered = g.sinks.iter().find(|s| s.site == site).map(|s| s.ordered).unwrap_or(false);
+            if let Some(d) = first_diff(g, &flips, a, b) {
+                let ordered = g.sinks.iter().find(|s| s.site == d.site).map(|s| s.ordered).unwrap_or(false);
                 rep.violation(
-                    &format!("C22|trace|differs|{k}"),
                     &format!(
-                        "group {} variant {} ({:?}) vs variant {}: sink {} tick {} sees {:?} but the reference variant sees {:?} ({})",
-                        g.gid, v.vid, v.inserts, r.vid, site, tick, y, x, if ordered { "ordered" } else { "as multisets" }
+                        "C22|trace|differs|{}{}|{}",
+                        base_kind(&d.culprit),
+                        if d.culprit.ends_with(":same-colour") { ":same-colour" } else { "" },
+                        diff_shape(&d.ref_items, &d.var_items)
                     ),
-                    case_json(m, g, r, v, h, json!({"site": site, "tick": tick, "ref_items": x, "variant_items": y, "flipped": flips})),
+                    &format!(
+                        "group {} variant {} ({:?}) vs variant {}: output of `{}` ({}) in tick {} is {:?} but {:?} in the reference variant ({}); colours {:?} vs {:?}",
+                        g.gid, v.vid, v.inserts, r.vid, d.culprit_name, d.culprit, d.tick, d.var_items, d.ref_items, if ordered { "ordered" } else { "as multisets" },
+                        v.analysis.colors.get(&d.culprit_name), r.analysis.colors.get(&d.culprit_name)
+                    ),
+                    case_json(m, g, r, v, h, json!({"site": d.site, "tick": d.tick, "operator": d.culprit_name, "kind": d.culprit, "ref_items": d.ref_items, "variant_items": d.var_items, "flipped": flips})),
                 );
                 true
             } else {
@@ -169,7 +260,7 @@ fn judge_pair(rep: &mut Reporter, m: &Manifest, reg: &Registry, g: &Group22, r: 
                 if let RunRes::Panic(x, _) = a { x.clone() } else { "no panic".to_string() },
                 if let RunRes::Panic(x, _) = b { x.clone() } else { "no panic".to_string() },
             );
-            let k = if flips.is_empty() { if sg_changed { "subgraph-shape".to_string() } else { "same-colours".to_string() } } else { base_kind(&flips[0].1) };
+            let k = if flips.len() == 1 { flips[0].1.clone() } else if flips.is_empty() { "same-colours".to_string() } else { "several-operators-flipped".to_string() };
             rep.violation(
                 &format!("C22|trace|panic-in-one-variant|{k}"),
                 &format!("group {} variant {} ({:?}): {} / reference variant {}: {}", g.gid, v.vid, v.inserts, mb, r.vid, ma),
@@ -209,7 +300,7 @@ pub fn run(args: &Args, m: &Manifest, reg: &Registry) {
         for v in &bad {
             let (stage, msg) = if !v.analysis.ok { ("front-end", v.analysis.err.clone()) } else { ("rustc", m.rustc_failed[&v.prog_id].clone()) };
             rep.violation(
-                &format!("C22|compile|mixed-outcome|{stage}|{}", err_class(&msg)),
+                &format!("C22|compile|mixed-outcome|{stage}|{}|{}", err_class(&msg), err_operator(g, v, &msg)),
                 &format!("group {}: variant {} ({:?}) is rejected by the {stage} while variant {} of the same program compiles: {}", g.gid, v.vid, v.inserts, r.vid, &msg[..msg.len().min(400)]),
                 json!({"engine": "dx_shape", "prop": "C22", "gen_seed": m.seed, "gen_tier": m.tier, "group": g.gid, "variant": v.vid, "ref_variant": r.vid,
                        "inserts": v.inserts, "variant_program": v.text, "ref_program": r.text, "error": msg, "compile_only": true}),
@@ -311,7 +402,7 @@ fn replay(rep: &mut Reporter, m: &Manifest, reg: &Registry, case: &vcommon::Valu
         if ok_of(r) && !ok_of(v) {
             let msg = if !v.analysis.ok { v.analysis.err.clone() } else { m.rustc_failed[&v.prog_id].clone() };
             let stage = if !v.analysis.ok { "front-end" } else { "rustc" };
-            rep.violation(&format!("C22|compile|mixed-outcome|{stage}|{}", err_class(&msg)), &msg, case.clone());
+            rep.violation(&format!("C22|compile|mixed-outcome|{stage}|{}|{}", err_class(&msg), err_operator(g, v, &msg)), &msg, case.clone());
         }
         return;
     }
